@@ -105,6 +105,37 @@ theorem C15_fault_never_hands_out_taken (P : Params) (c : Cfg) (tid : Nat) :
     | exact ⟨by simp [failCfg], _, rfl, failEvs_no_ok P _ _ _⟩
     | exact ⟨rfl, _, rfl, by simp⟩
 
+/-! ## Expiry GC (`CleanupExpired`) never touches a live claim -/
+
+/-- **A cleanup pass is invisible to liveness.** At the time of the pass and at any later time a key
+is live after the sweep exactly if it was live without it: the pass removes only markers that have
+lapsed (so a marker re-claimed over a lapsed one is never deleted) and revives nothing.  `C15_main` /
+`C15_fallback_single` quantify over schedules in which `Op.sweep` steps occur anywhere — between a
+lapse and the re-claim, between the re-claim and a third claimant — and the reference live-set of
+`holds` sweeps at the same events (`swp`). -/
+theorem C15_sweep_keeps_live_claims (s : Store) (now dt : Nat) (k : Key) :
+    live (sweep s now) (now + dt) k = live s (now + dt) k := by
+  unfold live
+  rw [lookup_sweep]
+  cases hl : live s now k with
+  | true => rfl
+  | false =>
+    have := live_tick_false s now dt k hl
+    unfold live at this
+    simp only [Bool.false_eq_true, if_false]
+    exact this.symm
+
+/-- Slot 1 carries a crashed node's lapsed lease (expiry 1, clock 3).  Node 0 re-claims it, a cleanup
+pass runs, node 1 (the third claimant) must move on to slot 2. -/
+example :
+    (run ⟨true, fun _ => 90000, fun _ => 1000, true, true⟩
+        (init [((9, 1), 1)] [(0, [.gen 9 (fun a => 1 + a)]), (1, [.gen 9 (fun a => 1 + a)]), (2, [.sweep, .sweep])])
+        [.tick 3, .step 2, .step 0, .step 2, .step 1, .step 1]).trace
+      = [.tick 3, .swp 2, .ok 0 9 1, .swp 2, .ok 1 9 2] := by decide
+/-- `holds` rejects the history of a pass that deleted the fresh claim. -/
+example : holds (fun _ => 90000) [((9, 1), 1)] [.tick 3, .ok 0 9 1, .swp 2, .ok 1 9 1] [(9, 1)] = false := by decide
+example : sweep [((9, 1), 1), ((9, 2), 0), ((9, 3), 10)] 3 = [((9, 2), 0), ((9, 3), 10)] := by decide
+
 /-! ## Lease clause: a claim whose holder keeps running is renewed and never lapses -/
 
 /-- **Unique while renewed.** If an observed history is accepted by `holds`, an id handed out to
